@@ -83,6 +83,7 @@ def group : Policy Grp where
     { s := s.flushQueue, evs := [], kop := .nop,
       exit := some (if s.stream && s.doneCnt = s.total then .none else .pending) }
   onPanic s := { s with dead := true }
+  panicEvs _ := []
   dropEvs s := (s.keys.filter (fun k => (s.member k).isSome)).map
                  (fun k => .childDropped ((s.member k).getD 0))
   afterDrop s := { s with dead := true }
@@ -96,12 +97,17 @@ def reserve (e : Eng Grp) (additional : Nat) : Eng Grp :=
          s := { e.s with capacity := e.s.capacity + additional } }
 
 /-- `insert(child c)` (future_group.rs:263-279) -/
-def insert (e : Eng Grp) (c : Nat) : Eng Grp :=
-  let e1 := if e.s.capacity ≤ e.s.len then reserve e (e.s.capacity * 2 + 1) else e
-  { w := (e1.w.setReady e1.s.next).emit (.inserted c e1.s.next),
-    s := { (e1.s.slabInsert c) with st := upd e1.s.st e1.s.next .pending,
-                                    keys := insertSorted e1.s.next e1.s.keys,
-                                    ret := e1.s.ret ++ [e1.s.next] } }
+def grow (e : Eng Grp) : Eng Grp :=
+  if e.s.capacity ≤ e.s.len then reserve e (e.s.capacity * 2 + 1) else e
+
+/-- `insert` after the capacity check; `keep`: the caller keeps the returned key -/
+def insertAt (e : Eng Grp) (c : Nat) (keep : Bool) : Eng Grp :=
+  { w := (e.w.setReady e.s.next).emit (.inserted c e.s.next),
+    s := { (e.s.slabInsert c) with st := upd e.s.st e.s.next .pending,
+                                   keys := insertSorted e.s.next e.s.keys,
+                                   ret := if keep then e.s.ret ++ [e.s.next] else e.s.ret } }
+
+def insert (e : Eng Grp) (c : Nat) : Eng Grp := insertAt (grow e) c true
 
 /-- `remove(key)` with the key returned by the `j`-th insert (future_group.rs:191-198) -/
 def remove (e : Eng Grp) (j : Nat) : Eng Grp :=
@@ -115,14 +121,14 @@ def remove (e : Eng Grp) (j : Nat) : Eng Grp :=
 
 /-- `Extend::extend` (future_group.rs:427-437): reserve the upper size hint, insert each -/
 def extend (e : Eng Grp) (cs : List Nat) : Eng Grp :=
-  cs.foldl insert (reserve e cs.length)
+  cs.foldl (fun e c => insertAt (grow e) c false) (reserve e cs.length)
 
 def query (e : Eng Grp) (q a : Nat) : Eng Grp := { e with w := e.w.emit (.answer q a) }
 
 def step (e : Eng Grp) : Op → Eng Grp
   | .poll w => Eng.poll group e w
   | .fire c age => e.fire c age
-  | .drop => if e.s.dead then e else Eng.drop group e
+  | .drop => Eng.drop group e
   | .insert c => if e.s.dead then e else insert e c
   | .remove j => if e.s.dead then e else remove e j
   | .reserve k => if e.s.dead then e else reserve e k
